@@ -192,6 +192,140 @@ func lazyCase(c *fw.Ctx, stream string, malformed bool) {
 	}
 }
 
+// lazyReuseCase: ONE Decoder (random mode and buffer-trimming options) decodes a series of messages of one
+// schema, each read through random and exhaustive accessor requests, through NestedResult(s), and closed
+// before the next one is decoded — so every result after the first lives in a recycled object. Each answer
+// must be what the reference parse of THAT message finds (the property quantifies over messages and
+// definitions, not over the state the decoder's pool happens to be in).
+func lazyReuseCase(c *fw.Ctx) {
+	const stream = "reuse"
+	r := c.Rng
+	fs := genLzFields(r, 0)
+	def := genLzDef(r, fs, 0)
+	opt := optCombo{fast: r.Bool(), maxBuf: []int{-1, -1, 0, 1, 2, 64}[r.Intn(6)], filter: r.Intn(3)}
+	mode := csproto.DecoderModeSafe
+	if opt.fast {
+		mode = csproto.DecoderModeFast
+	}
+	opts := []lazyproto.Option{lazyproto.WithMode(mode)}
+	if opt.maxBuf >= 0 {
+		opts = append(opts, lazyproto.WithMaxBufferSize(opt.maxBuf))
+	}
+	switch opt.filter {
+	case 1:
+		opts = append(opts, lazyproto.WithBufferFilterFunc(func(capacity int) int { return 1 }))
+	case 2:
+		opts = append(opts, lazyproto.WithBufferFilterFunc(func(capacity int) int { return capacity / 2 }))
+	}
+	dec, err := lazyproto.NewDecoder(def.toDef(), opts...)
+	if err != nil {
+		return
+	}
+	desc := fmt.Sprintf("def=%s %s", def.String(), opt)
+	var hist []string
+	violated := false
+	viol := func(sig, what, want, got string) {
+		if violated {
+			return
+		}
+		violated = true
+		c.Violate(fw.Violation{Stream: stream, Signature: sig, What: what,
+			Input: map[string]interface{}{"decoder": desc, "messages decoded and closed so far, then the failing request": strings.Join(hist, " ; ")}, Expected: trunc(want, 300), Got: trunc(got, 300)})
+	}
+	rounds := 4 + r.Intn(5)
+	for round := 0; round < rounds && !violated; round++ {
+		for _, f := range fs {
+			f.count = []int{0, 1, 1, 2, 3, 5}[r.Intn(6)]
+		}
+		in := encodeLz(r, fs)
+		nestedBad := false
+		if r.Chance(1, 6) {
+			if bad, ok := nestedCorruptInput(r, def, fs, in); ok {
+				in, nestedBad = bad, true
+			}
+		}
+		hist = append(hist, "decode "+trunc(hexs(in), 400))
+		c.Journal("C13 reuse " + desc + " | " + trunc(strings.Join(hist, " ; "), 3000))
+		var res *lazyproto.DecodeResult
+		var derr error
+		if p := safely(func() { res, derr = dec.Decode(append([]byte{}, in...)) }); p != "" {
+			viol("lazy/decode-panic", "lazy decode panicked", "", p)
+			break
+		}
+		if derr != nil {
+			viol("lazy/decode-error-on-well-formed", "lazy decoding failed on a well-formed message (Decoder used before)", "ok", derr.Error())
+			break
+		}
+		check := func(path []int, name string) {
+			got := accessPath(res, path, name)
+			hist = append(hist, fmt.Sprintf("%s(%s)", name, pathString(path)))
+			if got == "panic" {
+				viol("lazy/accessor-panic/"+name, "accessor panicked", "", "panic")
+				return
+			}
+			if want, ok := refPathAnswer(in, def, path, name); ok && want != got {
+				viol("lazy/answer-on-reused-decoder/"+name, "accessor result differs from the reference parse of the same bytes (the Decoder had decoded and closed other messages before)", want, got)
+			}
+			hist = hist[:len(hist)-1]
+		}
+		if !nestedBad {
+			for i := 0; i < 5 && !violated; i++ {
+				check(genLzPath(r, def, fs), accNames[r.Intn(len(accNames))])
+			}
+		}
+		// every accessor on one declared tag
+		if len(def.entries) > 0 && !violated {
+			e := def.entries[r.Intn(len(def.entries))]
+			for _, name := range accNames {
+				if violated {
+					break
+				}
+				check([]int{e.key}, name)
+			}
+		}
+		// nested results of every declared nested tag, each compared with the reference parse of its own bytes
+		for _, e := range def.entries {
+			if e.sub == nil || e.key < 0 || violated || res == nil {
+				continue
+			}
+			var nrs []*lazyproto.DecodeResult
+			var nerr error
+			if p := safely(func() { nrs, nerr = res.NestedResults(e.key) }); p != "" {
+				viol("lazy/nesteds-panic", "NestedResults panicked", "", p)
+				break
+			}
+			if nerr != nil {
+				continue
+			}
+			payloads := allPayloads(in, e.key)
+			for i, nr := range nrs {
+				if nr == nil || i >= len(payloads) || violated {
+					continue
+				}
+				for _, se := range e.sub.entries {
+					name := accNames[r.Intn(len(accNames))]
+					got := accessPath(nr, []int{se.key}, name)
+					if want, ok := refPathAnswer(payloads[i], e.sub, []int{se.key}, name); ok && want != got {
+						hist = append(hist, fmt.Sprintf("NestedResults(%d)[%d].%s(%d)", e.key, i, name, se.key))
+						viol("lazy/nested-answer-on-reused-decoder/"+name, "a nested result's accessor differs from the reference parse of that occurrence's bytes (the Decoder had decoded and closed other messages before)", want, got)
+					}
+				}
+			}
+		}
+		if res != nil {
+			if p := safely(func() { res.Close() }); p != "" {
+				viol("lazy/close-panic", "Close panicked", "", p)
+			}
+		}
+		hist = append(hist, "close")
+	}
+	outcome := "ok"
+	if violated {
+		outcome = "violation"
+	}
+	c.Count(stream, desc+strings.Join(hist, ";"), outcome, len(hist), len(def.entries) > 0)
+}
+
 func runC13(c *fw.Ctx) int {
 	c.Facts = extractFacts(c)
 	c.Prove("C13")
@@ -204,6 +338,9 @@ func runC13(c *fw.Ctx) int {
 		if i%3 == 0 {
 			lazyCase(c, "malformed", true)
 		}
+		if i%4 == 0 {
+			lazyReuseCase(c)
+		}
 		if i%5000 == 4999 {
 			c.FlushModel()
 		}
@@ -212,7 +349,7 @@ func runC13(c *fw.Ctx) int {
 		c.LeanChecker("C13")
 	}
 	return c.Finish(
-		"valid: schema-free random value trees (varint / packed varint / fixed32 / packed fixed32 / fixed64 / packed fixed64 / bytes / nested messages to depth 3, 0-3 occurrences per tag, fields interleaved in random order, empty nested messages, the empty message) x random definitions (declared-present, declared-absent, undeclared, negative raw tags, nested defs, nesting declared on non-message tags) x 6 random (path, accessor) requests out of the 26 accessors x {safe, fast} x {Decoder object, deprecated Decode function}; answers compared with the Lean model and with an independent protowire walk; malformed: the same damaged by truncation / bit flips / junk / mixed wire types / continuation bits (no panic, model agreement); non-trivial = non-empty message with a non-empty definition",
+		"valid: schema-free random value trees (varint / packed varint / fixed32 / packed fixed32 / fixed64 / packed fixed64 / bytes / nested messages to depth 3, 0-3 occurrences per tag, fields interleaved in random order, empty nested messages, the empty message) x random definitions (declared-present, declared-absent, undeclared, negative raw tags, nested defs, nesting declared on non-message tags) x 6 random (path, accessor) requests out of the 26 accessors x {safe, fast} x {Decoder object, deprecated Decode function}; answers compared with the Lean model and with an independent protowire walk; reuse: one Decoder per case (random mode x WithMaxBufferSize {none,0,1,2,64} x buffer filter {none, 1, half}) decoding 4-8 messages of one schema one after the other (some with a damaged last occurrence of a repeated nested field), each read through random requests, all 26 accessors on one tag and NestedResults of every nested tag, and closed before the next — answers compared with the reference walk of that message only; malformed: the same damaged by truncation / bit flips / junk / mixed wire types / continuation bits (no panic, model agreement); non-trivial = non-empty message with a non-empty definition",
 		append(trustedCommon, "protowire-based reference walk written in the harness (oracle for well-formed messages)"),
 		[]string{"error identity compared with errors.Is / errors.As classes: not-found, not-defined, nesting-not-defined, wire-type mismatch, overflow, other",
 			"for the empty message / empty nested message declared tags answer not-defined (which wraps not-found)"})
